@@ -169,9 +169,12 @@ fn argstr_events() -> Vec<String> {
 /// response writers (C14): the bytes written for an extension / a status, tokenised
 fn resp_events(rng: &mut StdRng, n: usize) -> Vec<String> {
     let mut v = vec![];
-    for _ in 0..n {
-        let k = rng.gen_range(0..6);
-        let universe: Vec<usize> = (1..=8).collect();
+    for i in 0..n {
+        // mostly small extensions; every 50th one is large (several KiB of text: buffering boundaries of the writers)
+        let big = i % 50 == 49;
+        let usize_n = if big { rng.gen_range(600..3000) } else { 8 };
+        let k = if big { rng.gen_range(usize_n / 2..usize_n) } else { rng.gen_range(0..6) };
+        let universe: Vec<usize> = (1..=usize_n).collect();
         let mut labels: Vec<usize> = vec![];
         for _ in 0..k {
             let l = universe[rng.gen_range(0..universe.len())];
